@@ -31,6 +31,11 @@ package debian
 
 // Two-cursor scanner: outside the loop shapes govc summarises; bounded stand-in.
 //@ func compareDebianVersionString
+//@   loop 1 invariant 0 <= i && i <= len(a) && 0 <= j && j <= len(b)
+//@   loop 2 invariant 0 <= i && i <= len(a) && iStart#1 <= i
+//@   loop 3 invariant 0 <= j && j <= len(b) && jStart#1 <= j
+//@   loop 4 invariant 0 <= i && i <= len(a) && iStart#2 <= i
+//@   loop 5 invariant 0 <= j && j <= len(b) && jStart#2 <= j
 //@   bounded alphabet "019a~.+" maxlen 3
 //@   comparator a ~ b                                     [C01]
 
